@@ -77,7 +77,15 @@ fn gen_doc(ch: &mut Ch, out: &mut CaseOut) -> DigDoc {
     }
     // unlabelled pins and labelled non-pin elements
     for _ in 0..ch.upto(4) {
-        match ch.upto(4) {
+        match ch.upto(5) {
+            // a pin whose label begins or ends with a blank: no header can name it, but it is a labelled pin like any
+            // other and keeps its label as it stands
+            4 => {
+                let l = [" EN", "EN ", " E N "][ch.upto(3)].to_string();
+                if !elements.iter().any(|e| matches!(e, Element::Pin(p) if p.label.as_deref() == Some(l.as_str()))) {
+                    elements.push(Element::Pin(Pin { kind: if ch.chance(1, 2) { PinKind::In } else { PinKind::Out }, label: Some(l), bits: Some(2), default: None }));
+                }
+            }
             0 => elements.push(Element::Pin(Pin { kind: PinKind::Out, label: None, bits: Some(3), default: None })),
             1 => elements.push(Element::Pin(Pin { kind: PinKind::In, label: None, bits: None, default: Some((Some(1), Some(false))) })),
             2 => elements.push(Element::Noise { element: ["Probe", "And", "Tunnel", "Text", "LED", "Register"][ch.upto(6)], label: Some(["Q", "A", "probe1", "R_out", "my label"][ch.upto(5)].to_string()), bits: Some(2) }),
@@ -116,7 +124,8 @@ fn gen_doc(ch: &mut Ch, out: &mut CaseOut) -> DigDoc {
     }
     // tests
     let ntests = ch.upto(4);
-    let labels = ["T1", "main", "T1", "a & b <test>", "é", "Testdata", "Label"];
+    // (labels that differ from another only in blanks at either end are different labels)
+    let labels = ["T1", "main", "T1", "a & b <test>", "é", "Testdata", "Label", " T1", "main ", " main"];
     for k in 0..ntests {
         let label = if ch.chance(1, 5) { None } else { Some(labels[ch.upto(labels.len())].to_string()) };
         let source = match ch.weighted(&[6, 2, 1, 1]) {
